@@ -477,56 +477,161 @@ def r33c_compress(repo, sink):
 
 
 # =========================================================================== R35
+class _RegridInterp(FinamInterp):
+    def __init__(self, repo, need_mask=True):
+        super().__init__(repo)
+        self.need_mask = need_mask
+
+    def call_hook(self, fv, args, kwargs, node, mod):
+        if isinstance(fv, Closure):
+            n = getattr(fv.func, "name", "")
+            if n == "_need_mask":
+                return self.need_mask
+            if n == "_do_transform":
+                return Sym("crs", args[0])
+            if n == "pull_data":
+                return Sym("pulled", args[0], args[1] if len(args) > 1 else None)
+            if n == "_check_in_data":
+                self.effects.append(("checked", args[0]))
+                return None
+            if n == "_check_and_set_out_mask":
+                return None
+            if n == "to_compressed":
+                return Sym("tc", args[0], kwargs.get("order", args[1] if len(args) > 1 else "C"), kwargs.get("mask"))
+            if n == "from_compressed":
+                return Sym("fc", args[0], kwargs.get("shape", args[1] if len(args) > 1 else None),
+                           kwargs.get("order", args[2] if len(args) > 2 else "C"), kwargs.get("mask"))
+        if isinstance(fv, Sym) and fv.op == "method":
+            kw = tuple(sorted(kwargs.items()))
+            return Sym(fv.args[1], fv.args[0], *args, *( [Sym("kw", k, v) for k, v in kw]))
+        return super().call_hook(fv, args, kwargs, node, mod)
+
+    def get_attr(self, obj, attr, node, mod):
+        if isinstance(obj, Sym) and obj.op != "ext" and attr in ("ravel", "query"):
+            return Sym("method", obj, attr)
+        return super().get_attr(obj, attr, node, mod)
+
+    def ext_call(self, name, args, kwargs, node):
+        short = name.split(".")[-1]
+        if short == "logical_not":
+            return Sym("logical_not", args[0])
+        if short == "KDTree":
+            return Sym("tree", args[0])
+        return super().ext_call(name, args, kwargs, node)
+
+    def sym_item(self, c, k, node):
+        if isinstance(c, Sym):
+            return Sym("select", c, k)
+        return super().sym_item(c, k, node)
+
+
+def _regrid_obj(repo, cname):
+    c = repo.cls(cname)
+    o = Obj(cls=c, label=cname)
+    ing = Obj(label="ingrid", fields={"data_points": Sym("IN_POINTS"), "order": Sym("IN_ORDER"), "data_shape": Sym("IN_SHAPE"), "dim": 2})
+    outg = Obj(label="outgrid", fields={"data_points": Sym("OUT_POINTS"), "order": Sym("OUT_ORDER"), "data_shape": Sym("OUT_SHAPE"), "dim": 2})
+    o.fields.update(input_grid=ing, output_grid=outg, input_mask=Sym("IN_MASK"), output_mask=Sym("OUT_MASK"), _out_mask_checked=True,
+                    tree_options=None, ids=Sym("IDS"), logger=Logger(label="logger"), transformer=None)
+    return o
+
+
 def r35_regrid(repo, sink):
     if not repo.has_cls("ARegridding"):
         raise AnalysisError("ARegridding not found")
     base = repo.cls("ARegridding")
     gi, go = repo.resolve(base, "_get_in_coords", "method"), repo.resolve(base, "_get_out_coords", "method")
-    ti, to = U(gi.node), U(go.node)
-    ok_in = ("self.input_grid.data_points" in ti and "self.input_mask.ravel(order=self.input_grid.order)" in ti and "logical_not" in ti
-             and "output_" not in ti)
-    ok_out = ("self.output_grid.data_points" in to and "self.output_mask.ravel(order=self.output_grid.order)" in to and "logical_not" in to
-              and "input_" not in to and "self._do_transform(" in to)
-    sink.check(ok_in, "R35", "coords:in", gi, ok="source coordinates: input grid's data points, unmasked by the input mask in the input grid's order",
-               bad="source coordinates are not (input grid data points) filtered by (not input mask) in the input grid's order")
-    sink.check(ok_out, "R35", "coords:out", go, ok="target coordinates: output grid / output mask / output order, then CRS transform",
-               bad="target coordinates are not (output grid data points) filtered by (not output mask) in the output grid's order")
-    for cname in ("RegridNearest", "RegridLinear"):
-        if not repo.has_cls(cname):
-            continue
-        c = repo.cls(cname)
-        gd = repo.resolve(c, "_get_data", "method")
+    rep = "RegridNearest" if repo.has_cls("RegridNearest") else None
+    if rep is None:
+        raise AnalysisError("RegridNearest not found")
+
+    class _G(_RegridInterp):
+        def get_attr(self, obj, attr, node, mod):
+            if isinstance(obj, Obj) and obj.label in ("ingrid", "outgrid") and attr in obj.fields:
+                return obj.fields[attr]
+            return super().get_attr(obj, attr, node, mod)
+
+    def sel(points, mask, order):
+        return Sym("select", points, Sym("logical_not", Sym("ravel", mask, Sym("kw", "order", order))))
+
+    for masked in (True, False):
+        it = _G(repo, masked)
+        o = _regrid_obj(repo, rep)
+        try:
+            got_in = it.run(gi, [], self_obj=o)
+            got_out = it.run(go, [], self_obj=o)
+        except (Raised, Undecided) as exc:
+            raise AnalysisError(f"regrid coordinates outside vocabulary: {exc}") from exc
+        want_in = sel(Sym("IN_POINTS"), Sym("IN_MASK"), Sym("IN_ORDER")) if masked else Sym("IN_POINTS")
+        want_out = Sym("crs", sel(Sym("OUT_POINTS"), Sym("OUT_MASK"), Sym("OUT_ORDER")) if masked else Sym("OUT_POINTS"))
+        sink.check(got_in == want_in, "R35", f"coords:in:{'masked' if masked else 'unmasked'}", gi,
+                   ok="source coordinates = input grid data points (minus cells masked by the input mask, flattened in the input grid's order)",
+                   bad=f"source coordinates are {got_in!r}, expected {want_in!r}: coordinates and compressed data must use the same grid's order and mask")
+        sink.check(got_out == want_out, "R35", f"coords:out:{'masked' if masked else 'unmasked'}", go,
+                   ok="target coordinates = output grid data points (minus the output mask, output order), CRS-transformed",
+                   bad=f"target coordinates are {got_out!r}, expected {want_out!r}")
+    # nearest: data path and tree
+    c = repo.cls(rep)
+    gd = repo.resolve(c, "_get_data", "method")
+    it = _G(repo, True)
+    o = _regrid_obj(repo, rep)
+    got = it.run(gd, [Sym("t"), Sym("target")], self_obj=o)
+    want = Sym("fc", Sym("select", Sym("tc", Sym("pulled", Sym("t"), Sym("target")), Sym("IN_ORDER"), None), Sym("IDS")),
+               Sym("OUT_SHAPE"), Sym("OUT_ORDER"), Sym("OUT_MASK"))
+    sink.check(got == want, "R35", "pairing:RegridNearest._get_data", gd,
+               ok="nearest: source data compressed in the input grid's order, picked by ids, expanded with output shape / order / mask",
+               bad=f"RegridNearest._get_data computes {got!r}, expected {want!r}")
+    sink.check(any(e[0] == "checked" for e in it.effects), "R35", "masked-input-check:RegridNearest", gd,
+               ok="masked input without declared mask is refused", bad="masked input data is no longer checked against the declared mask")
+    ug = repo.resolve(c, "_update_grid_specs", "method")
+    it = _G(repo, True)
+    o = _regrid_obj(repo, rep)
+    try:
+        it.run(ug, [], self_obj=o)
+        ids = o.fields["ids"]
+        want_ids = Sym("select", Sym("query", Sym("tree", sel(Sym("IN_POINTS"), Sym("IN_MASK"), Sym("IN_ORDER"))),
+                                      Sym("crs", sel(Sym("OUT_POINTS"), Sym("OUT_MASK"), Sym("OUT_ORDER")))), 1)
+        sink.check(ids == want_ids, "R35", "tree:RegridNearest", ug, ok="KD-tree over source coordinates, queried with the target coordinates, indices kept",
+                   bad=f"ids = {ids!r}, expected {want_ids!r}")
+    except Raised as r:
+        if r.name == "FinamMetaDataError":
+            sink.unknown("R35", "tree:RegridNearest", ug, "dimension check raised on the abstract grids")
+        else:
+            raise
+    # linear: structural pairing (its data path is numeric; decided only as far as order / shape / mask arguments go)
+    if repo.has_cls("RegridLinear"):
+        cl = repo.cls("RegridLinear")
+        gd = repo.resolve(cl, "_get_data", "method")
         tcs = [x for x in calls(gd.node, "to_compressed")]
         fcs = [x for x in calls(gd.node, "from_compressed")]
-        ok = bool(fcs)
-        for x in tcs:
-            ok = ok and {k.arg: U(k.value) for k in x.keywords}.get("order") == "self.input_grid.order"
-        for x in fcs:
-            kws = {k.arg: U(k.value) for k in x.keywords}
-            ok = ok and kws.get("shape") == "self.output_grid.data_shape" and kws.get("order") == "self.output_grid.order" and kws.get("mask") == "self.output_mask"
-        if cname == "RegridNearest":
-            ok = ok and len(tcs) == 1 and "[self.ids]" in U(gd.node)
-        sink.check(ok, "R35", f"pairing:{cname}._get_data", gd,
-                   ok="source data flattened in the input grid's order, result expanded with output shape / order / mask",
-                   bad=f"{cname}._get_data pairs data with another grid's order / shape / mask than its coordinates")
-        ug = repo.resolve(c, "_update_grid_specs", "method")
-        t = U(ug.node)
-        if cname == "RegridNearest":
-            ok = "KDTree(self._get_in_coords()" in t and "tree.query(self._get_out_coords())[1]" in t and "self.ids" in t
-            sink.check(ok, "R35", "tree:RegridNearest", ug, ok="tree over source coordinates, queried with target coordinates, ids kept",
-                       bad="KD-tree is not built from the source and queried with the target coordinates")
+        if not fcs:
+            sink.unknown("R35", "pairing:RegridLinear._get_data", gd, "no from_compressed call")
         else:
+            ok = True
+            for x in tcs:
+                ok = ok and {k.arg: U(k.value) for k in x.keywords}.get("order") == "self.input_grid.order"
+            for x in fcs:
+                kws = {k.arg: U(k.value) for k in x.keywords}
+                ok = ok and kws.get("shape") == "self.output_grid.data_shape" and kws.get("order") == "self.output_grid.order" and kws.get("mask") == "self.output_mask"
+            fl = [x for x in calls(gd.node, "flatten")]
+            for x in fl:
+                ok = ok and {k.arg: U(k.value) for k in x.keywords}.get("order") == "self.input_grid.order"
+            sink.check(ok, "R35", "pairing:RegridLinear._get_data", gd,
+                       ok="linear: source flattened in the input grid's order, result expanded with output shape / order / mask",
+                       bad="RegridLinear._get_data pairs data with another grid's order / shape / mask than its coordinates")
+        ug = repo.resolve(cl, "_update_grid_specs", "method")
+        t = U(ug.node)
+        if "KDTree(" in t:
             ok = "KDTree(self._get_in_coords()" in t and "self.fill_ids = tree.query(out_points)[1]" in t and "out_points = self.out_coords[self.out_ids]" in t
             sink.check(ok, "R35", "tree:RegridLinear-fill", ug, ok="nearest fill ids index the same compressed source array as the tree",
                        bad="fill ids of RegridLinear do not come from a tree over the source coordinates queried at the uncovered targets")
-        cid = [x for x in calls(gd.node, "_check_in_data")]
-        sink.check(bool(cid), "R35", f"masked-input-check:{cname}", gd, ok="masked input without declared mask is refused", bad="masked input data is no longer checked against the declared mask")
-    # output side compares its own grid spec with the requested one (layout sensitive)
+    # output side compares its own grid spec with the requested one (layout sensitive); delivered info
     g = repo.resolve(base, "_get_info", "method")
-    sink.check("self.output_grid != info.grid" in U(g.node), "R35", "out-grid-compared", g, ok="a given out_grid is compared (layout sensitive) with the requested grid",
+    sink.check("self.output_grid != info.grid" in U(g.node) or "self.output_grid == info.grid" in U(g.node), "R35", "out-grid-compared", g,
+               ok="a given out_grid is compared (layout sensitive) with the requested grid",
                bad="a user-given out_grid is no longer compared with the consumer's grid")
     ret = [r for r in fn_walk(g.node) if isinstance(r, ast.Return)]
-    ok = len(ret) == 1 and U(ret[0].value).replace(" ", "") == "in_info.copy_with(grid=self.output_grid,mask=self.output_mask)"
+    ok = len(ret) == 1 and isinstance(ret[0].value, ast.Call) and call_name(ret[0].value) == "copy_with" and \
+        {k.arg: U(k.value) for k in ret[0].value.keywords} == {"grid": "self.output_grid", "mask": "self.output_mask"}
     sink.check(ok, "R35", "delivered-info", g, ok="delivers the source info with output grid and output mask", bad="regridder does not deliver (output grid, output mask)")
 
 
